@@ -473,6 +473,13 @@ def obligations(tier):
     for o in (c15.obs_constructor(("n", 1), ("n", 1), sharding=True, eq_keys=("nu", "D")), c15.obs_constructor(("n", 2), ("n", 1))):
         o.name = o.name.replace("C15/", "C09/initial_store/")
         obs.append(o)
+    # get_batch of the non-stationary generator composes the three consumers: every store keeps its own cursor (otherwise a
+    # store is walked with another store's epoch) — the C14 contract of get_batch, whose frame clause is needed here
+    from contracts import c14
+    for (dim_, cart_) in ((2, False), (1, False), (2, True)):
+        o = c14.get_batch_ob(dim_, cart_, True)
+        o.name = o.name.replace("C14/", "C09/composition/")
+        obs.append(o)
     # an observation "row" is the input, the value and the observed parameters: all three are served from the same window
     o = c15.obs_alignment(2, 1, ("a", "b"))
     o.name = o.name.replace("C15/", "C09/observation_rows/")
